@@ -545,4 +545,16 @@ def openmlSem (hasSem cached1 cached2 : Bool) : SemTrace :=
   let flag := needs && !cached2            -- `semaphore_acquired = True`, released in `finally`
   { acquires := if needs then 1 else 0, releases := (if early then 1 else 0) + (if flag then 1 else 0) }
 
+/-- one read against a semaphore with `p` free permits: `none` = the reader would have to wait (no permit) -/
+def semStep (p : Nat) (r : Bool × Bool × Bool) : Option Nat :=
+  let t := openmlSem r.1 r.2.1 r.2.2
+  if t.acquires ≤ p then some (p - t.acquires + t.releases) else none
+
+/-- a sequence of reads (data-id or task-id sources alike: the semaphore protocol is the same) one after the other -/
+def semRun : Nat → List (Bool × Bool × Bool) → Option Nat
+  | p, [] => some p
+  | p, r :: rs => match semStep p r with
+    | some p' => semRun p' rs
+    | none => none
+
 end Coba.C19
